@@ -200,6 +200,7 @@ func mkRevision(set *apps.StatefulSet, name string) *kubeapps.ControllerRevision
 	}
 	rev.Name = name
 	rev.Namespace = set.Namespace
+	rev.Annotations = staleRevAnnotations(name)
 	return rev
 }
 
